@@ -966,4 +966,80 @@ theorem regression_ds_signed_by_owner :
     validate (envForeign traceDsByOwner) 27 0 qPU = .ok { rcode := 0, an := [bog' dsX, sigX], ns := [], ad := [] } := by
   decide
 
+/-! ### regression example of the repaired finding `C07.UnsignedNsecBesideSecureRecord` (= C08-H2, fix 63406ab) -/
+
+namespace Ex
+/-- `nope.z. A` is answered NXDOMAIN; the authority section holds the genuine, signed SOA of `z.` and a FORGED, unsigned
+`z. NSEC` (SOA bit set, `tag := 1`).  Record ids: soaZ 70, sigSoa 71, nsecForged 72. -/
+def soaZ : Rec := { name := ["z"], rtype := 6, rid := 70 }
+def sigSoa : Rec := { name := ["z"], rtype := 46, rid := 71, covered := 6, signer := ["z"], labels := 1 }
+def nsecForged : Rec := { name := ["z"], rtype := 47, rid := 72, tag := 1 }
+def qNope : Query := ⟨["nope", "z"], 1⟩
+def traceForgedNsec : List (Query × UpOut) :=
+  [(qNope, .ok { rcode := 3, an := [], ns := [soaZ, sigSoa, nsecForged], ad := [] }),
+   (qKz, msg [kz, sigKz]), (qDs, msg [dsz, sigDs]), (qKr, msg [kr, sigKr]),
+   (⟨["z"], 2⟩, msg [nsZ]), (⟨["nope", "z"], 2⟩, emptyMsg)]
+/-- the SOA's RRSIG verifies under `kz`; the NSEC oracle would call ANY selection of records a valid denial: the point is
+that it is never asked, the forged NSEC is not selected -/
+def envForgedNsec : Env :=
+  { mkEnv traceForgedNsec with
+    sigRes := fun k s g =>
+      if (k, s) = (2, 71) && g.rtype == 6 then .secure else (mkEnv traceForgedNsec).sigRes k s g
+    nsec := fun _ _ _ => .secure }
+end Ex
+
+open Ex in
+/-- the input has the shape of the class (an NSEC without RRSIG beside a signed RRset of the same owner) … -/
+example : unsignedNsecBesideSigned traceForgedNsec = true := by decide
+
+open Ex in
+/-- … and is no longer a denial: the SOA is Secure, the forged NSEC Bogus and not selected, the response an error
+(`DnsError::Nsec`, Bogus), SERVFAIL at the server.  Before 63406ab the NSEC was selected because the SOA of the same owner
+was Secure, and `nsec` decided. -/
+theorem regression_unsigned_nsec_beside_signed :
+    validate envForgedNsec 27 0 qNope = .errNsec .bogus ∧
+    serverView false qNope (validate envForgedNsec 27 0 qNope) = (2, false) := by
+  decide
+
+/-! ### the class predicate of the open finding `C07.ChildSideDsDenialAccepted` (= C08-H1) -/
+
+namespace Ex
+/-- `z. DS` answered by `z.`'s own server: the apex NSEC of `z.` (SOA bit, `tag := 1`) -/
+def nsecApexZ : Rec := { name := ["z"], rtype := 47, rid := 80, tag := 1 }
+/-- … by the parent (the root): the parent-side NSEC at `z.` (no SOA bit), or the root's apex NSEC3 (SOA bit, but in the root
+zone) as closest encloser -/
+def nsecCutZ : Rec := { name := ["z"], rtype := 47, rid := 81, tag := 0 }
+def nsec3ApexRoot : Rec := { name := ["h0"], rtype := 50, rid := 82, tag := 1 }
+def nsec3ApexZ : Rec := { name := ["h1", "z"], rtype := 50, rid := 83, tag := 1 }
+def dsNeg (ns : List Rec) : List (Query × UpOut) := [(qDs, .ok { rcode := 0, an := [], ns := ns, ad := [] })]
+end Ex
+
+open Ex in
+example : childSideDsDenial (dsNeg [nsecApexZ]) = true ∧ childSideDsDenial (dsNeg [nsec3ApexZ]) = true ∧
+    childSideDsDenial (dsNeg [nsecCutZ]) = false ∧ childSideDsDenial (dsNeg [nsec3ApexRoot]) = false := by decide
+
+/-! ## the DS → DNSKEY link: the concrete shape of `covers` -/
+
+/-- **`covers` links a key only through its FULL digest**: `dsCovers` is true iff the key is a zone key, the digest type is
+supported, and the DS digest *equals* the digest of the key — hence has its length; a truncated (in the extreme empty) or
+extended digest never covers.  (`dsCovers` is compared with the real `DS::covers` by the `covers` lines of the
+correspondence run; in the chain theorems `covers` stays a parameter of which this is the instance.) -/
+theorem covers_iff_full_digest (zoneKey : Bool) (hash : Option Bytes) (digest : Bytes) :
+    dsCovers zoneKey hash digest = true ↔ zoneKey = true ∧ hash = some digest := by
+  unfold dsCovers
+  cases hash with
+  | none => simp
+  | some h => simp
+
+theorem covers_same_length {zoneKey : Bool} {h digest : Bytes} (hc : dsCovers zoneKey (some h) digest = true) :
+    digest.length = h.length := by
+  have := (covers_iff_full_digest zoneKey (some h) digest).mp hc
+  injection this.2 with heq
+  rw [heq]
+
+/-- a proper prefix of the digest does not cover -/
+example : dsCovers true (some [1, 2, 3, 4]) [1, 2] = false ∧ dsCovers true (some [1, 2, 3, 4]) [] = false ∧
+    dsCovers true (some [1, 2, 3, 4]) [1, 2, 3, 4, 0] = false ∧ dsCovers true (some [1, 2, 3, 4]) [1, 2, 3, 4] = true := by
+  decide
+
 end HickoryVerif.C07
